@@ -163,14 +163,23 @@ fn par(rounds: usize, threads: usize, ops: usize) {
     }
 }
 
-// ---- C08: value conservation on all storage kinds (no faults)
+// ---- C08: value conservation on all storage kinds (no faults). One world for everything:
+// `World::new()` costs seconds under Miri.
 
-fn values_one<C: Component + std::fmt::Debug + Send + Sync>(mk: fn(u64) -> C)
+fn new_world() -> World {
+    let mut world = World::new();
+    world.register::<BVec>();
+    world.register::<BDense>();
+    world.register::<BDefault>();
+    world.register::<BHash>();
+    world.register::<BBTree>();
+    world
+}
+
+fn values_one<C: Component + std::fmt::Debug + Send + Sync>(world: &mut World, mk: fn(u64) -> C)
 where
     C::Storage: Default,
 {
-    let mut world = World::new();
-    world.register::<C>();
     let es: Vec<Entity> = world.create_iter().take(6).collect();
     {
         let mut s = world.write_storage::<C>();
@@ -179,7 +188,7 @@ where
                 s.insert(*e, mk(10 + i as u64)).unwrap();
             }
         }
-        // overwrite, remove, entry, drain
+        // overwrite, remove, entry, get_mut
         drop(s.insert(es[0], mk(20)).unwrap());
         drop(s.remove(es[1]));
         let _ = s.entry(es[3]).unwrap().or_insert_with(|| mk(30));
@@ -196,50 +205,50 @@ where
         s.clear();
         s.insert(es[0], mk(40)).unwrap();
     }
-    // lazy insertion left in the queue, then the world is dropped mid-frame
+    // a lazy insertion stays queued: the world is dropped mid-frame at the end
     world.read_resource::<LazyUpdate>().insert(es[0], mk(50));
-    drop(world);
+    world.delete_all();
 }
 
 fn values() {
-    values_one::<BVec>(|v| BVec(Boxed::new(v)));
-    values_one::<BDense>(|v| BDense(Boxed::new(v)));
-    values_one::<BDefault>(|v| BDefault(Boxed::new(v)));
-    values_one::<BHash>(|v| BHash(Boxed::new(v)));
-    values_one::<BBTree>(|v| BBTree(Boxed::new(v)));
+    let mut world = new_world();
+    values_one::<BVec>(&mut world, |v| BVec(Boxed::new(v)));
+    values_one::<BDense>(&mut world, |v| BDense(Boxed::new(v)));
+    values_one::<BDefault>(&mut world, |v| BDefault(Boxed::new(v)));
+    values_one::<BHash>(&mut world, |v| BHash(Boxed::new(v)));
+    values_one::<BBTree>(&mut world, |v| BBTree(Boxed::new(v)));
+    drop(world);
     assert_eq!(LIVE.load(Ordering::SeqCst), 0, "values leaked without any destructor panic");
 }
 
-// ---- C19: destructor panics
+// ---- C19: destructor panics (all scenarios in one world; the teardown fault uses its own)
 
-fn faults_one<C: Component + std::fmt::Debug>(mk: fn(u64) -> C, peek: fn(&C) -> u64, op: usize, victim: u64)
+fn faults_one<C: Component + std::fmt::Debug>(world: &mut World, base: u64, mk: fn(u64) -> C, peek: fn(&C) -> u64, op: usize, victim: u64)
 where
     C::Storage: Default,
 {
-    let mut world = World::new();
-    world.register::<C>();
+    world.delete_all();
     let es: Vec<Entity> = world.create_iter().take(4).collect();
     {
         let mut s = world.write_storage::<C>();
         for (i, e) in es.iter().enumerate() {
-            s.insert(*e, mk(1 + i as u64)).unwrap();
+            s.insert(*e, mk(base + 1 + i as u64)).unwrap();
         }
     }
-    PANIC_ON.store(victim as usize, Ordering::SeqCst);
+    PANIC_ON.store((base + victim) as usize, Ordering::SeqCst);
     let r = catch_unwind(AssertUnwindSafe(|| match op {
         0 => world.write_storage::<C>().clear(),
         1 => world.delete_entities(&es).unwrap(),
         2 => world.delete_all(),
-        3 => {
+        _ => {
             for e in &es {
                 world.entities().delete(*e).unwrap();
             }
             world.maintain();
         }
-        _ => {}
     }));
     let fired = PANIC_ON.swap(0, Ordering::SeqCst) == 0;
-    assert!(r.is_err() == fired || op == 4, "panic did not propagate as expected");
+    assert!(r.is_err() == fired, "panic did not propagate as expected");
     // every lookup must touch only live memory (Miri checks) and the world stays usable
     {
         let s = world.read_storage::<C>();
@@ -256,27 +265,37 @@ where
         std::hint::black_box(sum);
     }
     let n = world.create_entity().build();
-    world.write_storage::<C>().insert(n, mk(99)).unwrap();
-    assert_eq!(world.read_storage::<C>().get(n).map(peek), Some(99));
-    if op == 4 {
-        PANIC_ON.store(victim as usize, Ordering::SeqCst);
-        let _ = catch_unwind(AssertUnwindSafe(move || drop(world)));
-        PANIC_ON.store(0, Ordering::SeqCst);
-    } else {
-        drop(world);
-    }
+    world.write_storage::<C>().insert(n, mk(base + 99)).unwrap();
+    assert_eq!(world.read_storage::<C>().get(n).map(peek), Some(base + 99));
 }
 
 fn faults() {
-    for op in 0..5 {
+    let mut world = new_world();
+    let mut base = 1000u64;
+    for op in 0..4 {
         for victim in 1..=4u64 {
-            faults_one::<BVec>(|v| BVec(Boxed::new(v)), |c| *c.0 .0, op, victim);
-            faults_one::<BDense>(|v| BDense(Boxed::new(v)), |c| *c.0 .0, op, victim);
-            faults_one::<BDefault>(|v| BDefault(Boxed::new(v)), |c| *c.0 .0, op, victim);
-            faults_one::<BHash>(|v| BHash(Boxed::new(v)), |c| *c.0 .0, op, victim);
-            faults_one::<BBTree>(|v| BBTree(Boxed::new(v)), |c| *c.0 .0, op, victim);
+            faults_one::<BVec>(&mut world, base, |v| BVec(Boxed::new(v)), |c| *c.0 .0, op, victim);
+            base += 100;
+            faults_one::<BDense>(&mut world, base, |v| BDense(Boxed::new(v)), |c| *c.0 .0, op, victim);
+            base += 100;
+            faults_one::<BDefault>(&mut world, base, |v| BDefault(Boxed::new(v)), |c| *c.0 .0, op, victim);
+            base += 100;
+            faults_one::<BHash>(&mut world, base, |v| BHash(Boxed::new(v)), |c| *c.0 .0, op, victim);
+            base += 100;
+            faults_one::<BBTree>(&mut world, base, |v| BBTree(Boxed::new(v)), |c| *c.0 .0, op, victim);
+            base += 100;
         }
     }
+    // teardown with a panicking destructor
+    world.delete_all();
+    let es: Vec<Entity> = world.create_iter().take(3).collect();
+    for (i, e) in es.iter().enumerate() {
+        world.write_storage::<BVec>().insert(*e, BVec(Boxed::new(900_000 + i as u64))).unwrap();
+        world.write_storage::<BHash>().insert(*e, BHash(Boxed::new(900_100 + i as u64))).unwrap();
+    }
+    PANIC_ON.store(900_001, Ordering::SeqCst);
+    let _ = catch_unwind(AssertUnwindSafe(move || drop(world)));
+    PANIC_ON.store(0, Ordering::SeqCst);
 }
 
 fn main() {
